@@ -39,7 +39,15 @@ def body(c):
         more = enumerate_cases(c, 4, (0, 1, 2), (1, 2))
         c.extra["spec_states_N4"] = len(more)
         cases = cases + rng.sample(more, min(len(more), 30000))
-    for k, cs in enumerate(cases): cs["str"] = (k % 3 == 0)
+    for k, cs in enumerate(cases):
+        cs["str"] = (k % 3 == 0)
+        # every other store without an age limit holds one entry without output.pkl (left by a writer killed before the rename): it
+        # counts towards the limits like the others.  Its access time is the directory's, which the scan itself refreshes on
+        # relatime mounts: only the strictly most recently used entry is given that shape, and only without an age limit.
+        cs["incomplete"] = 0
+        if k % 2 == 1 and cs["age"] == -1 and cs["n"] >= 1:
+            top = max(cs["atime"]); j = cs["atime"].index(top)
+            if cs["atime"].count(top) == 1 and cs["size"][j] > 0: cs["incomplete"] = j + 1
     base = common.scratch("c18")
     nchunk = 14
     chunks = [(base, k, cases[k::nchunk]) for k in range(nchunk)]
@@ -49,7 +57,7 @@ def body(c):
     for (b, k, cs), res in zip(chunks, results):
         for case, r in zip(cs, res):
             c.evaluations += 1
-            key = {"sizes": case["size"], "atimes": case["atime"], "bytes_limit": case["bytes"], "items_limit": case["items"], "age_limit": case["age"], "bytes_as_string": case["str"]}
+            key = {"sizes": case["size"], "atimes": case["atime"], "bytes_limit": case["bytes"], "items_limit": case["items"], "age_limit": case["age"], "bytes_as_string": case["str"], "entry_without_output": case.get("incomplete", 0)}
             if case["n"] >= 2 and (case["bytes"], case["items"], case["age"]) != (-1, -1, -1):
                 c.nontrivial.add(json.dumps(key, sort_keys=True))
             if "exc" in r:
